@@ -336,4 +336,174 @@ theorem roundMag_of_near (F : Fmt) (hmb : 1 ≤ F.mbits) (a bb b : Nat) (hbb : 0
           have : ¬ (b % 2 = 0) := by omega
           rw [if_neg this]
 
+/-! ## decoding a finite bit pattern (`num.rs` `mantissa`, `exponent`) -/
+
+theorem and_expmask (F : Fmt) (b : Nat) (hb : b < 2 ^ (F.mbits + F.ebits)) :
+    b &&& ((2 ^ F.ebits - 1) * 2 ^ F.mbits) = b / 2 ^ F.mbits * 2 ^ F.mbits := by
+  apply Nat.eq_of_testBit_eq
+  intro i
+  rw [Nat.testBit_and, Nat.testBit_mul_two_pow, Nat.testBit_mul_two_pow, Nat.testBit_two_pow_sub_one,
+    Nat.testBit_div_two_pow]
+  by_cases h1 : F.mbits ≤ i
+  · have e : i - F.mbits + F.mbits = i := by omega
+    rw [e]
+    by_cases h2 : i - F.mbits < F.ebits
+    · simp [h1, h2]
+    · have : b.testBit i = false := Nat.testBit_lt_two_pow (Nat.lt_of_lt_of_le hb (Nat.pow_le_pow_right (by decide) (by omega)))
+      simp [h1, h2, this]
+  · simp [h1]
+
+/-- `mantissa · 2^(exponent + qexp) = magOfBits`, with `exponent + qexp = max(E,1) − 1` -/
+theorem decode {c : FC} {F : Fmt} (h : FCok c F) (b : Nat) (hb : b < F.infBits) :
+    ∃ m k : Nat, mantissa c b = m ∧ exponent c b = (k : Int) - F.qexp ∧ magOfBits F b = m * 2 ^ k ∧
+      k = b / 2 ^ F.mbits - 1 ∧ m < 2 ^ (F.mbits + 1) ∧ m % 2 = b % 2 := by
+  have hP := pow_pos' F.mbits
+  have hmb1 := h.mb1
+  have hinf : F.infBits < 2 ^ (F.mbits + F.ebits) := by
+    unfold Fmt.infBits
+    rw [Nat.pow_add, Nat.mul_comm (2 ^ F.mbits)]
+    exact Nat.mul_lt_mul_of_pos_right (by have := pow_pos' F.ebits; omega) hP
+  have hmask := and_expmask F b (by omega)
+  have hE : b / 2 ^ F.mbits < 2 ^ F.ebits - 1 := by
+    rw [Nat.div_lt_iff_lt_mul hP]; exact hb
+  have hPeven : 2 ^ F.mbits % 2 = 0 := by
+    obtain ⟨n, hn⟩ : ∃ n, F.mbits = n + 1 := ⟨F.mbits - 1, by omega⟩
+    rw [hn, Nat.pow_succ]; omega
+  have hbdm := Nat.div_add_mod b (2 ^ F.mbits)
+  have hpar : (b % 2 ^ F.mbits) % 2 = b % 2 := by
+    have : 2 ^ F.mbits * (b / 2 ^ F.mbits) % 2 = 0 := by
+      rw [Nat.mul_mod, hPeven]; simp
+    omega
+  have hmod := Nat.mod_lt b hP
+  unfold mantissa exponent isDenormal magOfBits
+  rw [h.emask, h.mmask, Nat.and_two_pow_sub_one_eq_mod]
+  have hmask' : b &&& F.infBits = b / 2 ^ F.mbits * 2 ^ F.mbits := hmask
+  rw [hmask']
+  by_cases hz : b / 2 ^ F.mbits = 0
+  · refine ⟨b % 2 ^ F.mbits, 0, ?_, ?_, ?_, ?_, ?_, hpar⟩
+    · simp [hz]
+    · simp [hz, h.den]
+    · simp [hz]
+    · simp [hz]
+    · rw [Nat.pow_succ]; omega
+  · have hnz : (b / 2 ^ F.mbits * 2 ^ F.mbits == 0) = false := by
+      rw [beq_eq_false_iff_ne]
+      exact Nat.ne_of_gt (Nat.mul_pos (Nat.pos_of_ne_zero hz) hP)
+    refine ⟨b % 2 ^ F.mbits + 2 ^ F.mbits, b / 2 ^ F.mbits - 1, ?_, ?_, ?_, rfl, ?_, ?_⟩
+    · simp [hnz, h.hidden]
+    · simp only [hnz, Bool.false_eq_true, if_false]
+      rw [h.size, Int.toNat_natCast, Nat.shiftRight_eq_div_pow, Nat.mul_div_cancel _ hP, h.bias]
+      have := Nat.pos_of_ne_zero hz
+      generalize b / 2 ^ F.mbits = E at *
+      omega
+    · simp only [hz, if_false]; ring
+    · rw [Nat.pow_succ]; omega
+    · omega
+
+/-! ## `small_atof`: comparison of the digits with `b + h` -/
+
+theorem cmp_scale {x y c : Nat} (hc : 0 < c) : (x * c < y * c ↔ x < y) := by
+  constructor
+  · intro h; exact Nat.lt_of_mul_lt_mul_right h
+  · intro h; exact Nat.mul_lt_mul_of_pos_right h hc
+
+/-- **`small_atof`**: for a finite `b` whose neighbourhood contains `N / 10^t` (strictly between the midpoint
+    below `b` and the midpoint above `b + 1`), comparing the digits with `b + h` yields the correctly rounded value -/
+theorem smallAtof_eq {c : FC} {F : Fmt} (h : FCok c F) (N : Nat) (s : Int) (b : Nat) (hs : s < 0)
+    (hb : b < F.infBits)
+    (hlo : b = 0 ∨ (magOfBits F (b - 1) + magOfBits F b) * 10 ^ (-s).toNat < 2 * (N * 2 ^ F.qexp))
+    (hhi : 2 * (N * 2 ^ F.qexp) < (magOfBits F (b + 1) + magOfBits F (b + 2)) * 10 ^ (-s).toNat) :
+    smallAtof c N s b = roundMag F (N * 2 ^ F.qexp) (10 ^ (-s).toNat) := by
+  obtain ⟨m, k, hm, he, hmag, hk, hm2, hpar⟩ := decode h b hb
+  obtain ⟨t, ht⟩ : ∃ t : Nat, -s = t := ⟨(-s).toNat, by omega⟩
+  have htt : (-s).toNat = t := by omega
+  have ht1 : 1 ≤ t := by omega
+  rw [htt] at hlo hhi ⊢
+  have h10 : (10 : Nat) ^ t = 5 ^ t * 2 ^ t := by
+    have : (10 : Nat) = 5 * 2 := rfl
+    rw [this, Nat.mul_pow]
+  rw [roundMag_of_near F h.mb1 _ _ b (Nat.pos_of_ne_zero (by simp)) hlo hhi]
+  -- the midpoint above `b`
+  have hmid : magOfBits F b + magOfBits F (b + 1) = (2 * m + 1) * 2 ^ k := by
+    rw [magOfBits_succ, hmag, ← hk]; ring
+  rw [hmid]
+  -- the model
+  have hm63 : 2 * m + 1 < 2 ^ 64 := by
+    have : 2 ^ (F.mbits + 1) ≤ 2 ^ 63 := Nat.pow_le_pow_right (by decide) (by have := h.mb62; have := h.eb; omega)
+    omega
+  have hbh : bhExtended c b = { mant := 2 * m + 1, exp := (k : Int) - F.qexp - 1 } := by
+    unfold bhExtended fromFloat
+    rw [hm, he]
+    simp only [Nat.shiftLeft_eq, Nat.pow_one]
+    have e1 : u64 (m * 2) = m * 2 := u64_of_lt (by omega)
+    rw [e1, u64_of_lt (by omega)]
+    congr 1; omega
+  have hbits : b + 1 < 2 ^ c.bits := by
+    rw [h.bits]
+    have : F.infBits < 2 ^ (F.mbits + F.ebits) := by
+      unfold Fmt.infBits
+      rw [Nat.pow_add, Nat.mul_comm (2 ^ F.mbits)]
+      exact Nat.mul_lt_mul_of_pos_right (by have := pow_pos' F.ebits; omega) (pow_pos' _)
+    have : 2 ^ (F.mbits + F.ebits) < 2 ^ (F.mbits + F.ebits + 1) := Nat.pow_lt_pow_right (by decide) (by omega)
+    omega
+  have hnext : nextPositive c b = b + 1 := by unfold nextPositive; exact Nat.mod_eq_of_lt hbits
+  have heven : roundPositiveEven c b = if b % 2 = 0 then b else b + 1 := by
+    unfold roundPositiveEven
+    rw [hm, Nat.and_one_is_mod, hpar, hnext]
+    by_cases hp : b % 2 = 0
+    · simp [hp]
+    · have : b % 2 = 1 := by omega
+      simp [this]
+  unfold smallAtof
+  simp only [hbh, hnext, heven]
+  -- both comparisons, scaled to a common power of two
+  have key : ∀ (real theor X : Nat), real * 2 ^ X = 2 * (N * 2 ^ F.qexp) →
+      theor * 2 ^ X = (2 * m + 1) * 2 ^ k * 10 ^ t →
+      (if real > theor then b + 1 else if real < theor then b else if b % 2 = 0 then b else b + 1) =
+      (if 2 * (N * 2 ^ F.qexp) < (2 * m + 1) * 2 ^ k * 10 ^ t then b
+       else if (2 * m + 1) * 2 ^ k * 10 ^ t < 2 * (N * 2 ^ F.qexp) then b + 1
+       else if b % 2 = 0 then b else b + 1) := by
+    intro real theor X h1 h2
+    have i1 : 2 * (N * 2 ^ F.qexp) < (2 * m + 1) * 2 ^ k * 10 ^ t ↔ real < theor := by
+      rw [← h1, ← h2]; exact cmp_scale (pow_pos' X)
+    have i2 : (2 * m + 1) * 2 ^ k * 10 ^ t < 2 * (N * 2 ^ F.qexp) ↔ theor < real := by
+      rw [← h1, ← h2]; exact cmp_scale (pow_pos' X)
+    by_cases c1 : real > theor
+    · have n1 : ¬ (2 * (N * 2 ^ F.qexp) < (2 * m + 1) * 2 ^ k * 10 ^ t) := fun hh => by have := i1.1 hh; omega
+      rw [if_pos c1, if_neg n1, if_pos (i2.2 c1)]
+    · rw [if_neg c1]
+      by_cases c2 : real < theor
+      · rw [if_pos c2, if_pos (i1.2 c2)]
+      · have n1 : ¬ (2 * (N * 2 ^ F.qexp) < (2 * m + 1) * 2 ^ k * 10 ^ t) := fun hh => c2 (i1.1 hh)
+        have n2 : ¬ ((2 * m + 1) * 2 ^ k * 10 ^ t < 2 * (N * 2 ^ F.qexp)) := fun hh => c1 (i2.1 hh)
+        rw [if_neg c2, if_neg n1, if_neg n2]
+  by_cases hβ : (k : Int) - F.qexp - 1 - s > 0
+  · obtain ⟨β, hβn⟩ : ∃ β : Nat, (k : Int) - F.qexp - 1 - s = β := ⟨((k : Int) - F.qexp - 1 - s).toNat, by omega⟩
+    have hβt : ((k : Int) - F.qexp - 1 - s).toNat = β := by omega
+    have hneg : ¬ ((k : Int) - F.qexp - 1 - s < 0) := by omega
+    simp only [if_pos hβ, if_neg hneg, htt, hβt]
+    apply key _ _ (F.qexp + 1)
+    · rw [Nat.pow_succ]; ring
+    · have : β + (F.qexp + 1) = k + t := by omega
+      calc (2 * m + 1) * 5 ^ t * 2 ^ β * 2 ^ (F.qexp + 1) = (2 * m + 1) * 5 ^ t * 2 ^ (β + (F.qexp + 1)) := by
+            rw [Nat.pow_add]; ring
+        _ = (2 * m + 1) * 5 ^ t * 2 ^ (k + t) := by rw [this]
+        _ = (2 * m + 1) * 2 ^ k * 10 ^ t := by rw [h10, Nat.pow_add]; ring
+  · rw [if_neg hβ]
+    by_cases hneg : (k : Int) - F.qexp - 1 - s < 0
+    · obtain ⟨γ, hγn⟩ : ∃ γ : Nat, -((k : Int) - F.qexp - 1 - s) = γ := ⟨(-((k : Int) - F.qexp - 1 - s)).toNat, by omega⟩
+      have hγt : (-((k : Int) - F.qexp - 1 - s)).toNat = γ := by omega
+      simp only [if_pos hneg, htt, hγt]
+      apply key _ _ (k + t)
+      · have : γ + (k + t) = F.qexp + 1 := by omega
+        calc N * 2 ^ γ * 2 ^ (k + t) = N * 2 ^ (γ + (k + t)) := by rw [Nat.pow_add]; ring
+          _ = N * 2 ^ (F.qexp + 1) := by rw [this]
+          _ = 2 * (N * 2 ^ F.qexp) := by rw [Nat.pow_succ]; ring
+      · rw [h10, Nat.pow_add]; ring
+    · simp only [if_neg hneg, htt]
+      apply key _ _ (k + t)
+      · have : k + t = F.qexp + 1 := by omega
+        rw [this, Nat.pow_succ]; ring
+      · rw [h10, Nat.pow_add]; ring
+
 end SJ.Proofs.LexBh
